@@ -12,6 +12,9 @@ checker annotates it* yields a value of type `τ`, or fails with a division by z
 namespace ExprModel
 open Spec
 
+-- `E`: the failures a statement about evaluation tolerates (`E .divzero` for the scalar fragment)
+variable {E : ErrClass → Prop}
+
 /-! ### scalar types and their values -/
 
 def RKind.isScalar : RKind → Bool
@@ -214,15 +217,15 @@ def EnvConforms (cfg : CheckCfg) (env : Val) : Prop :=
   ∀ name ns τ, identRule cfg name ns = .ok τ → ScalarT τ →
     ∃ v, fetchV env (.str name) ns = .ok v ∧ ValOfK v τ.kind
 
-/-- evaluating `n'` yields a value of kind `k`, or fails with a division by zero -/
-def EvalOK (c : SCfg) (n' : Node) (k : RKind) : Prop :=
+/-- evaluating `n'` yields a value of kind `k`, or fails with one of the tolerated failures `E` -/
+def EvalOK (E : ErrClass → Prop) (c : SCfg) (n' : Node) (k : RKind) : Prop :=
   ∀ ctx s, match (eval c ctx n' s).1 with
     | .ok v => ValOfK v k
-    | .error e => e = .divzero
+    | .error e => E e
 
-def FragSpec (cfg : CheckCfg) (c : SCfg) (n : Node) : Prop :=
+def FragSpec (E : ErrClass → Prop) (cfg : CheckCfg) (c : SCfg) (n : Node) : Prop :=
   ∀ τ, synth cfg [] n = some τ → ∀ st,
-    (visit cfg n st).2.1 = τ ∧ (visit cfg n st).1.kd = τ.kind ∧ EvalOK c (visit cfg n st).1 τ.kind
+    (visit cfg n st).2.1 = τ ∧ (visit cfg n st).1.kd = τ.kind ∧ EvalOK E c (visit cfg n st).1 τ.kind
 
 theorem toOption'_some {r : Rule} {τ : OTy} (h : Except.toOption' r = some τ) : r = .ok τ := by
   cases r with
@@ -232,8 +235,8 @@ theorem toOption'_some {r : Rule} {τ : OTy} (h : Except.toOption' r = some τ) 
 theorem orFail_ok (τ : OTy) (loc : Loc) (st : CState) : orFail (.ok τ) loc st = (τ, st) := rfl
 
 theorem frag_unary (cfg : CheckCfg) (c : SCfg) (m : Meta) (op : String) (x : Node)
-    (hop : fragUnary op = true) (hsc : scalarTyped cfg (.unary m op x) = true) (ih : FragSpec cfg c x) :
-    FragSpec cfg c (.unary m op x) := by
+    (hop : fragUnary op = true) (hsc : scalarTyped cfg (.unary m op x) = true) (ih : FragSpec E cfg c x) :
+    FragSpec E cfg c (.unary m op x) := by
   intro τ hs st
   simp only [scalarTyped, Bool.and_eq_true] at hsc
   obtain ⟨hτs, hxs⟩ := hsc
@@ -261,7 +264,7 @@ theorem frag_unary (cfg : CheckCfg) (c : SCfg) (m : Meta) (op : String) (x : Nod
     have evx := ev ctx s
     show match (eval c ctx (.unary { m with kd := τ.kind } op x') s).1 with
       | .ok v => ValOfK v τ.kind
-      | .error e => e = .divzero
+      | .error e => E e
     simp only [eval, bind, SM.bind']
     rcases hev : eval c ctx x' s with ⟨r, s'⟩
     rw [hev] at evx
@@ -306,14 +309,14 @@ theorem frag_unary (cfg : CheckCfg) (c : SCfg) (m : Meta) (op : String) (x : Nod
 /-! ### evaluation of the binary operators on typed operands -/
 
 /-- both operands are evaluated, then `tail a b` decides: the common shape of the strict operators -/
-theorem strict_binary (c : SCfg) (l r : Node) (kl kr k : RKind) (hl : EvalOK c l kl) (hr : EvalOK c r kr)
+theorem strict_binary (c : SCfg) (l r : Node) (kl kr k : RKind) (hl : EvalOK E c l kl) (hr : EvalOK E c r kr)
     (tail : Val → Val → SM Val)
     (htail : ∀ a b s, ValOfK a kl → ValOfK b kr →
-      match (tail a b s).1 with | .ok v => ValOfK v k | .error e => e = .divzero)
+      match (tail a b s).1 with | .ok v => ValOfK v k | .error e => E e)
     (ctx : Ctx) (s : SState) :
     match (((eval c ctx l).bind' fun a => (eval c ctx r).bind' fun b => tail a b) s).1 with
     | .ok v => ValOfK v k
-    | .error e => e = .divzero := by
+    | .error e => E e := by
   have h1 := hl ctx s
   unfold SM.bind'
   rcases hel : eval c ctx l s with ⟨ra, s1⟩
@@ -331,7 +334,7 @@ theorem strict_binary (c : SCfg) (l r : Node) (kl kr k : RKind) (hl : EvalOK c l
 
 theorem evalOK_cmp_num (c : SCfg) (m : Meta) (op : String) (l r : Node) (ka kb : Kind)
     (hop : op = "<" ∨ op = ">" ∨ op = "<=" ∨ op = ">=")
-    (hl : EvalOK c l (.num ka)) (hr : EvalOK c r (.num kb)) : EvalOK c (.binary m op l r) .bool := by
+    (hl : EvalOK E c l (.num ka)) (hr : EvalOK E c r (.num kb)) : EvalOK E c (.binary m op l r) .bool := by
   intro ctx s
   rcases hop with rfl | rfl | rfl | rfl <;>
     simp (config := {decide := true}) only [eval, bind, if_false, binArith] <;>
@@ -347,7 +350,7 @@ theorem evalOK_cmp_num (c : SCfg) (m : Meta) (op : String) (l r : Node) (ka kb :
 
 theorem evalOK_cmp_str (c : SCfg) (m : Meta) (op : String) (l r : Node)
     (hop : op = "<" ∨ op = ">" ∨ op = "<=" ∨ op = ">=")
-    (hl : EvalOK c l .string) (hr : EvalOK c r .string) : EvalOK c (.binary m op l r) .bool := by
+    (hl : EvalOK E c l .string) (hr : EvalOK E c r .string) : EvalOK E c (.binary m op l r) .bool := by
   intro ctx s
   rcases hop with rfl | rfl | rfl | rfl <;>
     simp (config := {decide := true}) only [eval, bind, if_false, binArith] <;>
@@ -362,20 +365,20 @@ theorem evalOK_cmp_str (c : SCfg) (m : Meta) (op : String) (l r : Node)
   · obtain ⟨rr, hrr⟩ := binHelper_str x y .moreOrEqual (Or.inr (Or.inr (Or.inr rfl)))
     simp only [SM.lift, hrr, SM.pure']; exact ⟨rr, rfl⟩
 
-theorem evalOK_arith (c : SCfg) (m : Meta) (op : String) (l r : Node) (ka kb : Kind)
+theorem evalOK_arith (hE : E .divzero) (c : SCfg) (m : Meta) (op : String) (l r : Node) (ka kb : Kind)
     (hop : op = "+" ∨ op = "-" ∨ op = "*" ∨ op = "/" ∨ (op = "%" ∧ ka.isFloat = false ∧ kb.isFloat = false))
-    (hl : EvalOK c l (.num ka)) (hr : EvalOK c r (.num kb)) :
-    EvalOK c (.binary m op l r) (.num (Kind.maxRank ka kb)) := by
+    (hl : EvalOK E c l (.num ka)) (hr : EvalOK E c r (.num kb)) :
+    EvalOK E c (.binary m op l r) (.num (Kind.maxRank ka kb)) := by
   intro ctx s
   have fin : ∀ (h : Helper), (h = .add ∨ h = .subtract ∨ h = .multiply ∨ h = .divide ∨
         (h = .modulo ∧ ka.isFloat = false ∧ kb.isFloat = false)) →
       ∀ a b s', ValOfK a (.num ka) → ValOfK b (.num kb) →
       match ((SM.lift (binHelper h a b) : SM Val) s').1 with
-      | .ok v => ValOfK v (.num (Kind.maxRank ka kb)) | .error e => e = .divzero := by
+      | .ok v => ValOfK v (.num (Kind.maxRank ka kb)) | .error e => E e := by
     intro h hh a b s' ha hb
     rcases binHelper_arith ha hb h hh with ⟨v, hv, hk⟩ | he
     · simp only [SM.lift, hv, SM.pure']; exact hk
-    · simp only [SM.lift, he, SM.fail]
+    · simp only [SM.lift, he, SM.fail]; exact hE
   rcases hop with rfl | rfl | rfl | rfl | ⟨rfl, f1, f2⟩ <;>
     simp (config := {decide := true}) only [eval, bind, if_false, binArith] <;>
     refine strict_binary c l r _ _ _ hl hr _ ?_ ctx s
@@ -386,7 +389,7 @@ theorem evalOK_arith (c : SCfg) (m : Meta) (op : String) (l r : Node) (ka kb : K
   · exact fin .modulo (Or.inr (Or.inr (Or.inr (Or.inr ⟨rfl, f1, f2⟩))))
 
 theorem evalOK_concat (c : SCfg) (m : Meta) (l r : Node)
-    (hl : EvalOK c l .string) (hr : EvalOK c r .string) : EvalOK c (.binary m "+" l r) .string := by
+    (hl : EvalOK E c l .string) (hr : EvalOK E c r .string) : EvalOK E c (.binary m "+" l r) .string := by
   intro ctx s
   simp (config := {decide := true}) only [eval, bind, if_false, binArith]
   refine strict_binary c l r _ _ _ hl hr _ ?_ ctx s
@@ -398,7 +401,7 @@ theorem evalOK_concat (c : SCfg) (m : Meta) (l r : Node)
 
 theorem evalOK_strop (c : SCfg) (m : Meta) (op : String) (l r : Node)
     (hop : op = "contains" ∨ op = "startsWith" ∨ op = "endsWith")
-    (hl : EvalOK c l .string) (hr : EvalOK c r .string) : EvalOK c (.binary m op l r) .bool := by
+    (hl : EvalOK E c l .string) (hr : EvalOK E c r .string) : EvalOK E c (.binary m op l r) .bool := by
   intro ctx s
   rcases hop with rfl | rfl | rfl <;>
     simp (config := {decide := true}) only [eval, bind, if_false, if_true] <;>
@@ -411,7 +414,7 @@ compiler selects from the operands' annotations -/
 theorem evalOK_eq (c : SCfg) (m : Meta) (op : String) (l r : Node) (kl kr : RKind)
     (hop : op = "==" ∨ op = "!=") (hsl : kl.isScalar = true) (hsr : kr.isScalar = true)
     (hkl : l.kd = kl) (hkr : r.kd = kr)
-    (hl : EvalOK c l kl) (hr : EvalOK c r kr) : EvalOK c (.binary m op l r) .bool := by
+    (hl : EvalOK E c l kl) (hr : EvalOK E c r kr) : EvalOK E c (.binary m op l r) .bool := by
   intro ctx s
   rcases hop with rfl | rfl <;>
     simp (config := {decide := true}) only [eval, bind, if_false, if_true] <;>
@@ -440,7 +443,7 @@ theorem evalOK_eq (c : SCfg) (m : Meta) (op : String) (l r : Node) (kl kr : RKin
 
 theorem evalOK_logic (c : SCfg) (m : Meta) (op : String) (l r : Node)
     (hop : op = "and" ∨ op = "&&" ∨ op = "or" ∨ op = "||")
-    (hl : EvalOK c l .bool) (hr : EvalOK c r .bool) : EvalOK c (.binary m op l r) .bool := by
+    (hl : EvalOK E c l .bool) (hr : EvalOK E c r .bool) : EvalOK E c (.binary m op l r) .bool := by
   intro ctx s
   have h1 := hl ctx s
   rcases hop with rfl | rfl | rfl | rfl <;>
@@ -472,13 +475,13 @@ theorem fragBinary_cases {op : String} (h : fragBinary op = true) :
     op = "startsWith" ∨ op = "endsWith" := by
   simpa [fragBinary, or_assoc] using h
 
-theorem binary_rule_sound (c : SCfg) (dt : TDefects) (m : Meta) (op : String) (l r : Node) (lt rt τ : OTy)
+theorem binary_rule_sound (hE : E .divzero) (c : SCfg) (dt : TDefects) (m : Meta) (op : String) (l r : Node) (lt rt τ : OTy)
     (hop : fragBinary op = true) (hls : ScalarT lt) (hrs : ScalarT rt)
     (hrule : binaryRule dt op lt rt = .ok τ)
     (hkl : l.kd = lt.kind) (hkr : r.kd = rt.kind)
-    (hl : EvalOK c l lt.kind) (hr : EvalOK c r rt.kind) : EvalOK c (.binary m op l r) τ.kind := by
+    (hl : EvalOK E c l lt.kind) (hr : EvalOK E c r rt.kind) : EvalOK E c (.binary m op l r) τ.kind := by
   have logic : ∀ o, (o = "and" ∨ o = "&&" ∨ o = "or" ∨ o = "||") → isBoolT lt = true → isBoolT rt = true →
-      EvalOK c (.binary m o l r) .bool := by
+      EvalOK E c (.binary m o l r) .bool := by
     intro o ho h1 h2
     have k1 := (isBoolT_scalar hls).1 h1
     have k2 := (isBoolT_scalar hrs).1 h2
@@ -486,7 +489,7 @@ theorem binary_rule_sound (c : SCfg) (dt : TDefects) (m : Meta) (op : String) (l
     exact evalOK_logic c m o l r ho hl hr
   have cmp : ∀ o, (o = "<" ∨ o = ">" ∨ o = "<=" ∨ o = ">=") →
       ((isNumberT lt = true ∧ isNumberT rt = true) ∨ (isStringT lt = true ∧ isStringT rt = true)) →
-      EvalOK c (.binary m o l r) .bool := by
+      EvalOK E c (.binary m o l r) .bool := by
     intro o ho h
     rcases h with ⟨h1, h2⟩ | ⟨h1, h2⟩
     · obtain ⟨ka, k1⟩ := (isNumberT_scalar hls).1 h1
@@ -498,26 +501,26 @@ theorem binary_rule_sound (c : SCfg) (dt : TDefects) (m : Meta) (op : String) (l
       rw [k1] at hl; rw [k2] at hr
       exact evalOK_cmp_str c m o l r ho hl hr
   have arith : ∀ o, (o = "+" ∨ o = "-" ∨ o = "*" ∨ o = "/") → isNumberT lt = true → isNumberT rt = true →
-      EvalOK c (.binary m o l r) (combinedT lt rt).kind := by
+      EvalOK E c (.binary m o l r) (combinedT lt rt).kind := by
     intro o ho h1 h2
     obtain ⟨ka, k1⟩ := (isNumberT_scalar hls).1 h1
     obtain ⟨kb, k2⟩ := (isNumberT_scalar hrs).1 h2
     rw [combinedT_kind k1 k2]
     rw [k1] at hl; rw [k2] at hr
-    refine evalOK_arith c m o l r ka kb ?_ hl hr
+    refine evalOK_arith hE c m o l r ka kb ?_ hl hr
     rcases ho with e | e | e | e
     · exact Or.inl e
     · exact Or.inr (Or.inl e)
     · exact Or.inr (Or.inr (Or.inl e))
     · exact Or.inr (Or.inr (Or.inr (Or.inl e)))
   have strop : ∀ o, (o = "contains" ∨ o = "startsWith" ∨ o = "endsWith") → isStringT lt = true →
-      isStringT rt = true → EvalOK c (.binary m o l r) .bool := by
+      isStringT rt = true → EvalOK E c (.binary m o l r) .bool := by
     intro o ho h1 h2
     have k1 := (isStringT_scalar hls).1 h1
     have k2 := (isStringT_scalar hrs).1 h2
     rw [k1] at hl; rw [k2] at hr
     exact evalOK_strop c m o l r ho hl hr
-  have eqop : ∀ o, (o = "==" ∨ o = "!=") → EvalOK c (.binary m o l r) .bool :=
+  have eqop : ∀ o, (o = "==" ∨ o = "!=") → EvalOK E c (.binary m o l r) .bool :=
     fun o ho => evalOK_eq c m o l r _ _ ho hls hrs hkl hkr hl hr
   rcases fragBinary_cases hop with rfl | rfl | rfl | rfl | rfl | rfl | rfl | rfl | rfl | rfl | rfl | rfl | rfl |
       rfl | rfl | rfl | rfl | rfl
@@ -602,7 +605,7 @@ theorem binary_rule_sound (c : SCfg) (dt : TDefects) (m : Meta) (op : String) (l
       obtain ⟨kb, k2, f2⟩ := (isIntegerT_scalar hrs).1 hc.2
       rw [combinedT_kind k1 k2]
       rw [k1] at hl; rw [k2] at hr
-      exact evalOK_arith c m "%" l r ka kb (Or.inr (Or.inr (Or.inr (Or.inr ⟨rfl, f1, f2⟩)))) hl hr
+      exact evalOK_arith hE c m "%" l r ka kb (Or.inr (Or.inr (Or.inr (Or.inr ⟨rfl, f1, f2⟩)))) hl hr
     · cases hrule
   -- contains startsWith endsWith
   · simp [binaryRule] at hrule
@@ -625,9 +628,9 @@ theorem scalarTyped_self (cfg : CheckCfg) (n : Node) (h : scalarTyped cfg n = tr
   cases n <;> simp only [scalarTyped, Bool.and_eq_true] at h <;>
     first | exact h | exact h.1 | exact h.1.1 | exact h.1.1.1
 
-theorem frag_binary (cfg : CheckCfg) (c : SCfg) (m : Meta) (op : String) (l r : Node)
+theorem frag_binary (hE : E .divzero) (cfg : CheckCfg) (c : SCfg) (m : Meta) (op : String) (l r : Node)
     (hop : fragBinary op = true) (hsc : scalarTyped cfg (.binary m op l r) = true)
-    (ihl : FragSpec cfg c l) (ihr : FragSpec cfg c r) : FragSpec cfg c (.binary m op l r) := by
+    (ihl : FragSpec E cfg c l) (ihr : FragSpec E cfg c r) : FragSpec E cfg c (.binary m op l r) := by
   intro τ hs st
   simp only [scalarTyped, Bool.and_eq_true] at hsc
   obtain ⟨⟨_, hlsc⟩, hrsc⟩ := hsc
@@ -657,7 +660,7 @@ theorem frag_binary (cfg : CheckCfg) (c : SCfg) (m : Meta) (op : String) (l r : 
         have := scalarTyped_self cfg l hlsc; rw [hsl] at this; exact this
       have hrs : ScalarT rt' := by
         have := scalarTyped_self cfg r hrsc; rw [hsr] at this; exact this
-      exact binary_rule_sound c cfg.dt { m with kd := τ.kind } op l' r' lt' rt' τ hop hls hrs hrule k1 k2 ev1 ev2
+      exact binary_rule_sound hE c cfg.dt { m with kd := τ.kind } op l' r' lt' rt' τ hop hls hrs hrule k1 k2 ev1 ev2
 
 theorem assignable_scalar_kind {x y : Ty} (hx : ScalarT (some x)) (hy : ScalarT (some y))
     (h : assignableTo x y = true) : x.kind = y.kind := by
@@ -680,8 +683,8 @@ theorem assignable_scalar_kind {x y : Ty} (hx : ScalarT (some x)) (hy : ScalarT 
 
 theorem frag_cond (cfg : CheckCfg) (c : SCfg) (m : Meta) (cn a b : Node)
     (hsc : scalarTyped cfg (.cond m cn a b) = true)
-    (ihc : FragSpec cfg c cn) (iha : FragSpec cfg c a) (ihb : FragSpec cfg c b) :
-    FragSpec cfg c (.cond m cn a b) := by
+    (ihc : FragSpec E cfg c cn) (iha : FragSpec E cfg c a) (ihb : FragSpec E cfg c b) :
+    FragSpec E cfg c (.cond m cn a b) := by
   intro τ hs st
   simp only [scalarTyped, Bool.and_eq_true] at hsc
   obtain ⟨⟨⟨hτs, hcsc⟩, hasc⟩, hbsc⟩ := hsc
@@ -748,7 +751,7 @@ theorem frag_cond (cfg : CheckCfg) (c : SCfg) (m : Meta) (cn a b : Node)
           intro ctx s
           show match (eval c ctx (.cond { m with kd := τ.kind } cn' a' b') s).1 with
             | .ok v => ValOfK v τ.kind
-            | .error e => e = .divzero
+            | .error e => E e
           simp only [eval, bind]
           unfold SM.bind'
           have h0 := ev0 ctx s
@@ -765,7 +768,7 @@ theorem frag_cond (cfg : CheckCfg) (c : SCfg) (m : Meta) (cn a b : Node)
       simp at hs
 
 theorem frag_ident (cfg : CheckCfg) (c : SCfg) (henv : EnvConforms cfg c.env) (m : Meta) (name : String)
-    (ns : Bool) (hsc : scalarTyped cfg (.ident m name ns) = true) : FragSpec cfg c (.ident m name ns) := by
+    (ns : Bool) (hsc : scalarTyped cfg (.ident m name ns) = true) : FragSpec E cfg c (.ident m name ns) := by
   intro τ hs st
   simp only [scalarTyped] at hsc
   rw [hs] at hsc
@@ -776,14 +779,14 @@ theorem frag_ident (cfg : CheckCfg) (c : SCfg) (henv : EnvConforms cfg c.env) (m
   intro ctx s
   show match (eval c ctx (.ident { m with kd := τ.kind } name ns) s).1 with
     | .ok v => ValOfK v τ.kind
-    | .error e => e = .divzero
+    | .error e => E e
   obtain ⟨v, hv, hk⟩ := henv name ns τ hrule hsc
   simp only [eval, SM.lift, hv, SM.pure']
   exact hk
 
 /-- **Soundness on the scalar fragment**, by structural recursion over the tree. -/
-theorem frag_sound (cfg : CheckCfg) (c : SCfg) (henv : EnvConforms cfg c.env) :
-    ∀ n : Node, inFrag n = true → scalarTyped cfg n = true → FragSpec cfg c n
+theorem frag_sound (hE : E .divzero) (cfg : CheckCfg) (c : SCfg) (henv : EnvConforms cfg c.env) :
+    ∀ n : Node, inFrag n = true → scalarTyped cfg n = true → FragSpec E cfg c n
   | .bool m b, _, _ => by
     intro τ hs st
     simp only [synth, Option.some.injEq] at hs
@@ -813,15 +816,15 @@ theorem frag_sound (cfg : CheckCfg) (c : SCfg) (henv : EnvConforms cfg c.env) :
     simp only [inFrag, Bool.and_eq_true] at hf
     have hx : scalarTyped cfg x = true := by
       simp only [scalarTyped, Bool.and_eq_true] at hsc; exact hsc.2
-    exact frag_unary cfg c m op x hf.1 hsc (frag_sound cfg c henv x hf.2 hx)
+    exact frag_unary cfg c m op x hf.1 hsc (frag_sound hE cfg c henv x hf.2 hx)
   | .binary m op l r, hf, hsc => by
     simp only [inFrag, Bool.and_eq_true] at hf
     have hl : scalarTyped cfg l = true := by
       simp only [scalarTyped, Bool.and_eq_true] at hsc; exact hsc.1.2
     have hr : scalarTyped cfg r = true := by
       simp only [scalarTyped, Bool.and_eq_true] at hsc; exact hsc.2
-    exact frag_binary cfg c m op l r hf.1.1 hsc (frag_sound cfg c henv l hf.1.2 hl)
-      (frag_sound cfg c henv r hf.2 hr)
+    exact frag_binary hE cfg c m op l r hf.1.1 hsc (frag_sound hE cfg c henv l hf.1.2 hl)
+      (frag_sound hE cfg c henv r hf.2 hr)
   | .cond m cn a b, hf, hsc => by
     simp only [inFrag, Bool.and_eq_true] at hf
     have h1 : scalarTyped cfg cn = true := by
@@ -830,8 +833,8 @@ theorem frag_sound (cfg : CheckCfg) (c : SCfg) (henv : EnvConforms cfg c.env) :
       simp only [scalarTyped, Bool.and_eq_true] at hsc; exact hsc.1.2
     have h3 : scalarTyped cfg b = true := by
       simp only [scalarTyped, Bool.and_eq_true] at hsc; exact hsc.2
-    exact frag_cond cfg c m cn a b hsc (frag_sound cfg c henv cn hf.1.1 h1)
-      (frag_sound cfg c henv a hf.1.2 h2) (frag_sound cfg c henv b hf.2 h3)
+    exact frag_cond cfg c m cn a b hsc (frag_sound hE cfg c henv cn hf.1.1 h1)
+      (frag_sound hE cfg c henv a hf.1.2 h2) (frag_sound hE cfg c henv b hf.2 h3)
   | .nil _, hf, _ | .const _ _, hf, _ | .matches _ _ _ _, hf, _ | .prop _ _ _ _, hf, _
   | .index _ _ _, hf, _ | .slice _ _ _ _, hf, _ | .method _ _ _ _ _, hf, _ | .func _ _ _ _, hf, _
   | .builtin _ _ _, hf, _ | .closure _ _, hf, _ | .pointer _, hf, _ | .array _ _, hf, _
